@@ -66,7 +66,9 @@ def main():
                 meta["tests_wall_s"] = round(time.time() - t0)
                 meta["ran"].append(f"pytest {a.tests} with patch")
             if not a.no_check:
-                env2 = dict(os.environ, VERIF_REPO=str(wt), OMP_NUM_THREADS="1")
+                coq = f"/tmp/vseedcoq-{os.getpid()}"
+                sh(f"cp -a {V / 'coq'} {coq}; rm -f {coq}/.build.lock")
+                env2 = dict(os.environ, VERIF_REPO=str(wt), VERIF_COQ=coq, OMP_NUM_THREADS="1")
                 env2.pop("PYTHONPATH", None)
                 r = sh(f"cd {V} && /venv/bin/python harness/vcheck.py {a.prop} --tier {a.tier}", env=env2)
                 lines = [l for l in r.stdout.splitlines() if l.startswith("VIOLATION") or l.startswith("KNOWN-FINDING") or l.startswith("[")]
@@ -78,7 +80,7 @@ def main():
                 if r.returncode not in (0, 1):
                     meta["check_error_tail"] = (r.stdout + r.stderr)[-1500:]
     finally:
-        sh(f"git -C /repo worktree remove --force {wt}")
+        sh(f"git -C /repo worktree remove --force {wt}; rm -rf /tmp/vseedcoq-{os.getpid()}")
     valid = meta.get("demo_unchanged_exit") == 0 and meta.get("demo_changed_exit", 0) != 0 and meta.get("tests_exit", 0) == 0
     meta["valid_seed"] = bool(valid)
     print(json.dumps(meta, indent=1))
